@@ -45,6 +45,8 @@
 (*                  (stream cut after `at` events) | "noclass" (a stream naming a class   *)
 (*                  that cannot be imported)                                              *)
 (*      scn.par     loads 1 and 2 run concurrently on two threads                         *)
+(*      scn.churn   history: short-lived plain classes were remote-pickled and dropped    *)
+(*                  before the (brand-new) opt-in classes of the graph were created       *)
 (*      obs.dump    "ok" | "raised:<type>";  obs.gs[i] flags node i's __getstate__ saw    *)
 (*      obs.loads[k] = [outcome, top, nodes, ss]: nodes[i] = the entries of the loaded    *)
 (*                  copy of node i (key -> token; "n:j" reference to the copy of node j,  *)
